@@ -1179,11 +1179,16 @@ def save_names(numbers):
     return [_os.path.basename(f) for f, _ in sink]
 
 
+_REAL_CLOSE = _plt.close      # (the animation slices replace pyplot.close while the library runs; the harness's own figures are closed for real)
+
+
 class ImplViz(ImplGen):
+    _ALL_HELD: list = []        # figures still held by any interpreter of this process (a scenario = a new interpreter)
+
     def cmd_new(self, ts):
-        held = getattr(self, "held_chart", None)
-        if held is not None:
-            _plt.close(held[0])
+        for fig in ImplViz._ALL_HELD:
+            _REAL_CLOSE(fig)
+        ImplViz._ALL_HELD = []
         self.held_chart = None
         return super().cmd_new(ts)
 
@@ -1195,6 +1200,7 @@ class ImplViz(ImplGen):
             # a chart the caller still holds (the one drawn by the previous `bars`) shows what it showed when it was drawn
             held = getattr(self, "held_chart", None)
             self.held_chart = (fig, ax, sorted(bars), list(legend))
+            ImplViz._ALL_HELD.append(fig)
             if held is not None:
                 h_fig, h_ax, h_bars, h_legend = held
                 try:
@@ -1258,7 +1264,7 @@ class ImplViz(ImplGen):
                 _warnings.simplefilter("ignore")
                 fig, ax = _pgc.plot_gantt_chart(schedule, xlim=makespan)
                 bars, _, _, lim = read_chart(ax)
-                _plt.close(fig)
+                _REAL_CLOSE(fig)
             seen["xlim"] = int(lim[1] + 0.5)
             return _FakeFigure(sink, lst(bars))
 
